@@ -1,6 +1,6 @@
 //@ unit tokenizer_loop
 //@ serves C11 C04
-//@ must_verify tokenize lemma_kept_push lemma_comments_push
+//@ must_verify tokenize lemma_kept_push lemma_comments_push lemma_groups_in_map lemma_line_mono lemma_line_lf lemma_comment_has_lf lemma_cmt_end_is_stop lemma_offs_mono
 //@ include prelude/head.rs
 use vstd::utf8::*;
 use std::rc::Rc;
@@ -126,6 +126,25 @@ pub open spec fn insert_groups(m: Map<usize, Seq<Token>>, gs: Seq<Seq<Token>>) -
 {
     if gs.len() == 0 { m } else { insert_groups(m, gs.drop_last()).insert(gs.last().last().pos.line, gs.last()) }
 }
+pub open spec fn group_key(g: Seq<Token>) -> int { g.last().pos.line as int }
+// groups are stored under strictly increasing line numbers: no insert overwrites an earlier one
+pub open spec fn keys_increase(gs: Seq<Seq<Token>>) -> bool {
+    forall|a: int, b: int| 0 <= a < b < gs.len() ==> group_key(#[trigger] gs[a]) < group_key(#[trigger] gs[b])
+}
+// ... so that every group is in the map, whole, under its key
+pub proof fn lemma_groups_in_map(m: Map<usize, Seq<Token>>, gs: Seq<Seq<Token>>, g: int)
+    requires keys_increase(gs), 0 <= g < gs.len()
+    ensures
+        insert_groups(m, gs).contains_key(gs[g].last().pos.line),
+        insert_groups(m, gs)[gs[g].last().pos.line] == gs[g],
+    decreases gs.len()
+{
+    if g < gs.len() - 1 {
+        lemma_groups_in_map(m, gs.drop_last(), g);
+        assert(gs.drop_last()[g] == gs[g]);
+        assert(group_key(gs[g]) < group_key(gs[gs.len() - 1]));
+    }
+}
 pub open spec fn tokenize_ok(input: OffsetStrIter, has_map: bool, m0: Map<usize, Seq<Token>>, m1: Map<usize, Seq<Token>>,
                              out: Seq<Token>, toks: Seq<Token>, offs: Seq<int>, groups: Seq<Seq<Token>>) -> bool {
     let n = bytes_of(input).len() as int;
@@ -136,7 +155,7 @@ pub open spec fn tokenize_ok(input: OffsetStrIter, has_map: bool, m0: Map<usize,
     // comments
     &&& if has_map {
             flat(groups) == comments(toks) && (forall|g: int| 0 <= g < groups.len() ==> (#[trigger] groups[g]).len() > 0)
-            && m1 == insert_groups(m0, groups)
+            && m1 == insert_groups(m0, groups) && keys_increase(groups)
         } else {
             m1 == m0
         }
@@ -146,15 +165,69 @@ pub open spec fn tokenized(input: OffsetStrIter, has_map: bool, m0: Map<usize, S
     exists|toks: Seq<Token>, offs: Seq<int>, groups: Seq<Seq<Token>>| #[trigger] tokenize_ok(input, has_map, m0, m1, out, toks, offs, groups)
 }
 
+// line numbers only grow along the text, and grow across a line feed
+pub proof fn lemma_line_mono(bs: Seq<u8>, a: int, b: int)
+    requires 0 <= a <= b <= bs.len()
+    ensures true_line(bs, a) <= true_line(bs, b)
+    decreases b - a
+{
+    if a < b {
+        lemma_line_mono(bs, a, b - 1);
+        assert(bs.take(b).drop_last() =~= bs.take(b - 1));
+    }
+}
+pub proof fn lemma_line_lf(bs: Seq<u8>, a: int, j: int, b: int)
+    requires 0 <= a <= j < b <= bs.len(), bs[j] == 0x0A
+    ensures true_line(bs, a) < true_line(bs, b)
+{
+    lemma_line_mono(bs, a, j);
+    assert(bs.take(j + 1).drop_last() =~= bs.take(j));
+    assert(bs.take(j + 1).last() == bs[j]);
+    lemma_line_mono(bs, j + 1, b);
+}
+// a comment that is not the end of the text contains its line feed
+pub proof fn lemma_comment_has_lf(bs: Seq<u8>, o: int, e: int, t: Token)
+    requires token_text(bs, o, e, t), t.typ is COMMENT, 0 <= o < e < bs.len()
+    ensures true_line(bs, o) < true_line(bs, e)
+{
+    lemma_cmt_end_bounds(bs, o + 2);
+    let c = cmt_end(bs, o + 2);
+    lemma_cmt_end_is_stop(bs, o + 2);
+    if is_crlf(bs, c) { lemma_line_lf(bs, o, c + 1, e); } else { lemma_line_lf(bs, o, c, e); }
+}
+pub proof fn lemma_cmt_end_is_stop(bs: Seq<u8>, s: int)
+    requires 0 <= s <= bs.len()
+    ensures cmt_end(bs, s) < bs.len() ==> cmt_ends_at(bs, cmt_end(bs, s))
+    decreases bs.len() - s
+{
+    if s < bs.len() && !cmt_ends_at(bs, s) { lemma_cmt_end_is_stop(bs, s + 1); }
+}
+pub proof fn lemma_offs_mono(i0: OffsetStrIter, toks: Seq<Token>, offs: Seq<int>, a: int, b: int)
+    requires wf_osi(i0), tiling(i0, toks, offs), 0 <= a <= b < offs.len()
+    ensures 0 <= offs[a] <= offs[b] <= bytes_of(i0).len()
+    decreases b - a
+{
+    if a < b {
+        lemma_offs_mono(i0, toks, offs, a, b - 1);
+        assert(tok_at(i0, toks[b - 1], offs[b - 1], offs[b]));
+    } else if a > 0 {
+        assert(tok_at(i0, toks[a - 1], offs[a - 1], offs[a]));
+    }
+}
+
 // what the loop keeps about the comment groups: `groups` are in the map, `cur` is the open group, `last` its last comment
-pub open spec fn group_inv(has_map: bool, m0: Map<usize, Seq<Token>>, m: Map<usize, Seq<Token>>, toks: Seq<Token>,
-                           groups: Seq<Seq<Token>>, cur: Seq<Token>, last: Option<Token>) -> bool {
+// (token number ck); every key in the map is a line before offset hi, and hi is not after the open group
+pub open spec fn group_inv(has_map: bool, m0: Map<usize, Seq<Token>>, m: Map<usize, Seq<Token>>, i0: OffsetStrIter, toks: Seq<Token>,
+                           offs: Seq<int>, groups: Seq<Seq<Token>>, cur: Seq<Token>, last: Option<Token>, hi: int, ck: int) -> bool {
     if has_map {
         &&& flat(groups) + cur == comments(toks)
         &&& forall|g: int| 0 <= g < groups.len() ==> (#[trigger] groups[g]).len() > 0
         &&& m == insert_groups(m0, groups)
-        &&& last matches Some(t) ==> cur.len() > 0 && t == cur.last()
+        &&& last matches Some(t) ==> cur.len() > 0 && t == cur.last() && 0 <= ck < toks.len() && toks[ck] == t && t.typ is COMMENT && hi <= offs[ck]
         &&& last is None ==> cur.len() == 0
+        &&& keys_increase(groups)
+        &&& 0 <= hi <= offs.last()
+        &&& forall|g: int| 0 <= g < groups.len() ==> group_key(#[trigger] groups[g]) < true_line(bytes_of(i0), hi) + i0.line_offset
     } else {
         m == m0 && groups.len() == 0
     }
@@ -183,18 +256,20 @@ pub open spec fn group_inv(has_map: bool, m0: Map<usize, Seq<Token>>, m: Map<usi
     let ghost mut offs = seq![off_of(input)];
     let ghost mut groups = Seq::<Seq<Token>>::empty();
     let ghost m0 = map@;
+    let ghost mut hi = off_of(input);
+    let ghost mut ck = 0int;
 //@   >>>
 //@   loop 1 <<<
         invariant
             wf_osi(input), wf_osi(i), same_frame(i, input),
             tiling(input, toks, offs), offs.last() == off_of(i),
             out@ == kept(toks),
-            group_inv(has_map, m0, map@, toks, groups, comment_group@, comment_was_last),
+            group_inv(has_map, m0, map@, input, toks, offs, groups, comment_group@, comment_was_last, hi, ck),
         ensures
             wf_osi(input), wf_osi(i), same_frame(i, input),
             tiling(input, toks, offs), offs.last() == off_of(i), off_of(i) >= bytes_of(input).len(),
             out@ == kept(toks),
-            group_inv(has_map, m0, map@, toks, groups, comment_group@, comment_was_last),
+            group_inv(has_map, m0, map@, input, toks, offs, groups, comment_group@, comment_was_last, hi, ck),
         decreases bytes_of(input).len() - off_of(i)
 //@   >>>
 //@   after "i = rest;" <<<
@@ -209,13 +284,34 @@ pub open spec fn group_inv(has_map: bool, m0: Map<usize, Seq<Token>>, m: Map<usi
                     toks = toks1; offs = offs1;
                 }
 //@   >>>
+//@   after "comment_was_last = Some(tok.clone());" <<<
+                        proof { ck = toks.len() - 1; }
+//@   >>>
 //@   before "map.insert(tok.pos.line, comment_group);" <<<
                             let ghost g = comment_group@;
 //@   >>>
 //@   after "map.insert(tok.pos.line, comment_group);" <<<
                             proof {
-                                assert(groups.push(g).drop_last() =~= groups);
-                                groups = groups.push(g);
+                                // the group's key is the line of its last comment (token ck); that comment is followed by
+                                // another token, so it contains its line feed: every later line number is larger
+                                let bs = bytes_of(input);
+                                assert(tok_at(input, toks[ck], offs[ck], offs[ck + 1]));
+                                lemma_offs_mono(input, toks, offs, 0, ck);
+                                lemma_offs_mono(input, toks, offs, ck + 1, toks.len() - 1);
+                                assert(tok_at(input, toks[toks.len() - 1], offs[toks.len() - 1], offs[toks.len() as int]));
+                                lemma_comment_has_lf(bs, offs[ck], offs[ck + 1], toks[ck]);
+                                lemma_line_mono(bs, hi, offs[ck]);
+                                let groups1 = groups.push(g);
+                                assert(groups1.drop_last() =~= groups);
+                                assert forall|a: int, b: int| 0 <= a < b < groups1.len() implies group_key(#[trigger] groups1[a]) < group_key(#[trigger] groups1[b]) by {
+                                    if b < groups.len() { assert(groups1[a] == groups[a] && groups1[b] == groups[b]); } else { assert(groups1[a] == groups[a]); }
+                                }
+                                lemma_line_mono(bs, hi, offs[ck + 1]);
+                                assert forall|x: int| 0 <= x < groups1.len() implies group_key(#[trigger] groups1[x]) < true_line(bs, offs[ck + 1]) + input.line_offset by {
+                                    if x < groups.len() { assert(groups1[x] == groups[x]); }
+                                }
+                                hi = offs[ck + 1];
+                                groups = groups1;
                                 assert(flat(groups) + Seq::<Token>::empty() =~= flat(groups));
                             }
 //@   >>>
@@ -224,8 +320,15 @@ pub open spec fn group_inv(has_map: bool, m0: Map<usize, Seq<Token>>, m: Map<usi
 //@   >>>
 //@   after "map.insert(line, comment_group);" <<<
             proof {
-                assert(groups.push(g).drop_last() =~= groups);
-                groups = groups.push(g);
+                let bs = bytes_of(input);
+                assert(tok_at(input, toks[ck], offs[ck], offs[ck + 1]));
+                lemma_line_mono(bs, hi, offs[ck]);
+                let groups1 = groups.push(g);
+                assert(groups1.drop_last() =~= groups);
+                assert forall|a: int, b: int| 0 <= a < b < groups1.len() implies group_key(#[trigger] groups1[a]) < group_key(#[trigger] groups1[b]) by {
+                    if b < groups.len() { assert(groups1[a] == groups[a] && groups1[b] == groups[b]); } else { assert(groups1[a] == groups[a]); }
+                }
+                groups = groups1;
             }
 //@   >>>
 // (the first three are written against the text after the substitutions above)
